@@ -41,7 +41,12 @@ struct Outcome {
 
 #[allow(clippy::too_many_arguments)]
 fn render_cfg(fl: &Flat, calls: &[Vec<[usize; 3]>], ctx: &Context, discard: Option<usize>, prior_z: &[f32], tk: Tk) -> Result<Outcome, String> {
-    let to_screen = viewport(pt2(0, 0)..pt2(fl.w, fl.h));
+    render_cfg_flip(fl, calls, ctx, discard, prior_z, tk, (false, false))
+}
+
+#[allow(clippy::too_many_arguments)]
+fn render_cfg_flip(fl: &Flat, calls: &[Vec<[usize; 3]>], ctx: &Context, discard: Option<usize>, prior_z: &[f32], tk: Tk, flip: (bool, bool)) -> Result<Outcome, String> {
+    let to_screen = super::c01_image::screen_matrix((0, 0, fl.w, fl.h), flip);
     let w = fl.w;
     let mut cv = Canvas::new(fl.w, fl.h, (0, 0, fl.w, fl.h), |_, _| COL_SENT, |x, y| prior_z[(y * w + x) as usize]);
     let inv = Cell::new(0usize);
@@ -258,6 +263,10 @@ fn masks_case(rng: &mut Rng, rep: &mut Report, idx: u64) {
 
 // ---------------------------------------------------------------- culling
 
+fn hs_flip(h: &mut Hasher, f: (bool, bool)) {
+    h.u64(f.0 as u64 * 2 + f.1 as u64);
+}
+
 fn cull_case(rng: &mut Rng, rep: &mut Report) {
     let fl = gen_flat(rng, 1, 40, true);
     let t = fl.sc.tris[0];
@@ -266,17 +275,24 @@ fn cull_case(rng: &mut Rng, rep: &mut Report) {
     for (p, _) in &fl.sc.verts {
         h.f32s(p);
     }
-    let Some(back) = orientation(&fl, &t) else {
+    // a mirrored viewport (one axis) reverses the on-screen winding
+    let flip = if rng.chance(1, 3) { (rng.bool(), rng.bool()) } else { (false, false) };
+    hs_flip(&mut h, flip);
+    let Some(back_ndc) = orientation(&fl, &t) else {
         rep.skip("culling.near_edge_on");
         return;
     };
+    let back = back_ndc != (flip.0 != flip.1);
+    if flip.0 != flip.1 {
+        rep.count("culling.mirrored_viewport(winding reversed on screen)");
+    }
     let npx = (fl.w * fl.h) as usize;
     let prior = vec![0.0f32; npx];
     let run = |tri: [usize; 3], cull: Option<FaceCull>| -> Result<Outcome, String> {
         let ctx = Context { face_cull: cull, ..Context::default() };
-        render_cfg(&fl, &[vec![tri]], &ctx, None, &prior, Tk::FbOwned)
+        render_cfg_flip(&fl, &[vec![tri]], &ctx, None, &prior, Tk::FbOwned, flip)
     };
-    let cj = || fl_json(&fl);
+    let cj = || fl_json(&fl).set("viewport_mirrored_xy", format!("{flip:?}"));
     let mut res = vec![];
     for tri in [t, rev] {
         for cull in [None, Some(FaceCull::Back), Some(FaceCull::Front)] {
@@ -299,7 +315,7 @@ fn cull_case(rng: &mut Rng, rep: &mut Report) {
     // ambiguity mask: pixels within 0.02 px of any projected or internal fan
     // edge, for *both* vertex orders (the clip fan differs between them)
     let mk = |tri: [usize; 3]| {
-        let sc = Scene::<f32> { cs: ClipScene { verts: fl.sc.verts.clone(), tris: vec![tri] }, bw: fl.w, bh: fl.h, win: (0, 0, fl.w, fl.h), vp: (0, 0, fl.w, fl.h), tk: Tk::FbOwned, prior_random: false, prior_seed: 0, gen_mode: 0 };
+        let sc = Scene::<f32> { cs: ClipScene { verts: fl.sc.verts.clone(), tris: vec![tri] }, bw: fl.w, bh: fl.h, win: (0, 0, fl.w, fl.h), vp: (0, 0, fl.w, fl.h), flip, tk: Tk::FbOwned, prior_random: false, prior_seed: 0, gen_mode: 0 };
         build_oracle(&sc).mask
     };
     let (m1, m2) = (mk(t), mk(rev));
@@ -416,13 +432,14 @@ fn cull_stats_case(rng: &mut Rng, rep: &mut Report) {
 pub fn run(cfg: &Cfg, rep: &mut Report) {
     rep.rule = "masks: case = one scene of 1..5 triangles × {Framebuf, colour-only} × depth_test {None,Less,Equal,Greater} × color_write × depth_write × {discarding, non-discarding shader} × {one, two render() calls on one Context}; culling: case = one triangle in both vertex orders × face_cull {None,Back,Front}; cull-stats: 2..6 triangles × {Back,Front}; non-trivial = produces fragments; distinct by scene hash".into();
     rep.assumptions.push("layers are solo renders of the same rasteriser (their correctness is C01/C04/C05's subject); pixels a triangle's own clip fan draws twice are excluded from the pixel model and fragment counts of such scenes are not compared".into());
-    rep.assumptions.push("orientation oracle: back-facing ⇔ det[x;y;w] > 0 (counter-clockwise in NDC), the convention of the library's own solids; |det| < 1e-4·scale³ is skipped".into());
+    rep.assumptions.push("orientation oracle: back-facing on screen ⇔ det[x;y;w] > 0 (counter-clockwise in NDC) for an unmirrored viewport, reversed when exactly one viewport axis is mirrored; |det| < 1e-4·scale³ is skipped".into());
     rep.run_stream(cfg, 0, "masks_and_stats", cfg.n(3_000, 150_000), |rng, i, rep| masks_case(rng, rep, i));
     rep.run_stream(cfg, 1, "culling", cfg.n(40_000, 2_000_000), |rng, _, rep| cull_case(rng, rep));
     rep.run_stream(cfg, 2, "culling_stats", cfg.n(20_000, 1_000_000), |rng, _, rep| cull_stats_case(rng, rep));
     rep.floor("configurations_rendered", 50_000);
     rep.floor("stats.fragment_counts_checked", 40_000);
     rep.floor("culling.visible_triangles", 10_000);
+    rep.floor("culling.mirrored_viewport(winding reversed on screen)", 2_000);
     rep.floor("culling.backfacing_input", 5_000);
     rep.floor("culling.frontfacing_input", 5_000);
     rep.floor("cull_stats.checked", 10_000);
